@@ -1116,7 +1116,10 @@ class Action:
                 print("In %s value \"%s\" contains a delimiter '%s'" % (self.tableFile, value, delim), file=utils.stdwarn)
 
         npath = opath
-        for value in value.split(delim):
+        values = value.split(delim)
+        if fwd and not append:
+            values.reverse()            # prepended one by one, last first: the value's elements keep their order
+        for value in values:
             if fwd:
                 if append:
                     npath = [d for d in npath if d != value] + [value] # an element that's already there moves to the end
